@@ -19,9 +19,21 @@ the block when the template's first row is read, the insert row after the templa
 identifiers, node indices and group indices are related by explicit injective maps that change
 from phase to phase.
 
+Two cases:
+* the rest of the sheet does not continue from the block (`InsertCovered`, `insert_twin_traces_partial`);
+* the rest of the sheet CONTINUES from the block — a later row with a blank `from` right after the
+  block, or naming the block's row id, any number of them; the insert row at any block depth (inside
+  blocks and loops: `exInside`) — provided no row leading into the block
+  has an unconnected exit left (without this F-C03-a separates the two forms:
+  `needs_post_avoids_block`): on the run (`InsertContinues`, `insert_twin_continues_traces_partial`)
+  and, on the EVENTS, for an insert row that directly follows a plain action row it is attached to
+  (`InsertFollows`, `insert_twin_follows_traces_partial`) — the shape of the harness's twin workbooks,
+  repeated insertions of one template included (`exHarness…`).
+
 What the statement does NOT cover is kept visible in `insert_twin_full`.
 -/
 import Rpft.Lemmas.CompileInsertMainG
+import Rpft.Lemmas.CompileInsertTight
 import Rpft.Lemmas.FlowRename
 import Rpft.FlowSys
 set_option linter.unusedSimpArgs false
@@ -270,41 +282,253 @@ theorem needs_ids_apart :
     exact ⟨o₁, o₂, h1, h2, by simpa using h⟩
   · cases h
 
+/-! ### the sheet continues from the inserted block -/
+
+/-- the twin block is tight: once the template's first row is read in the twin, the begin row (kept
+as a `no_op` group, first child of the block) has row groups as parents all of whose nodes are
+without unconnected exit — so an edge that leaves the block later finds nothing there to pick up -/
+def InsertTight (noArgs testTypes : List Str) (pre : List Compile.Event) (r r₁ : Compile.Row) : Prop :=
+  ∀ a₂, (Compile.steps (pre ++ [.openGroup r.edges false, .row (Compile.retargetRow r₁)])).run
+    (Compile.initSt noArgs testTypes) = .ok ((), a₂) → Compile.TightAt a₂
+
+/-- The sheets that continue from the block, condition on the run of the twin: as `InsertCovered`, but
+the insert row may be at ANY block depth (inside blocks and loops), and the rows after the block may
+use a blank `from` right after it and may name its row id (`apart` only forbids the template's own
+row ids, by an edge or as a `go_to` destination); instead the twin block is tight (`InsertTight`) and
+no later row — also of later inserted templates — is a `loose_exit` row (`needs_no_loose_exit_after`). -/
+structure InsertContinues (noArgs testTypes : List Str) (pre : List Compile.Event) (r : Compile.Row)
+    (body post : List Compile.Event) : Prop where
+  entry : ∃ r₁ rest, body = .row r₁ :: rest ∧ Compile.EntryRow r₁ ∧ Compile.noStartL rest = true ∧
+    Compile.noNamesL rest = true ∧ InsertTight noArgs testTypes pre r r₁
+  ids : Compile.okIdsL (pre ++ [.insert r body] ++ post) = true
+  noLoose : Compile.noLooseL post = true
+  apart : Compile.avoidsOpen (Compile.defsL body) post = true
+
+theorem insert_twin_continues_nodes_partial (noArgs testTypes : List Str) (pre post body : List Compile.Event)
+    (r : Compile.Row) (hc : InsertContinues noArgs testTypes pre r body post) {o₁ o₂ : Compile.Out}
+    (h₁ : Compile.compile noArgs testTypes (pre ++ [.insert r body] ++ post) = .ok o₁)
+    (h₂ : Compile.compile noArgs testTypes (pre ++ insertTwin r body ++ post) = .ok o₂) :
+    ∃ ρ : Compile.Uid → Compile.Uid, Injective ρ ∧ o₂.nodes = o₁.nodes.map (Compile.rnNode ρ) := by
+  obtain ⟨r₁, rest, rfl, he, hns, hnn, ht⟩ := hc.entry
+  exact Compile.insert_twin_nodes_open noArgs testTypes pre post rest r r₁ he hns hnn hc.ids ht hc.noLoose
+    hc.apart h₁ h₂
+
+theorem traces_of_nodes {o₁ o₂ : Compile.Out}
+    (h : ∃ ρ : Compile.Uid → Compile.Uid, Injective ρ ∧ o₂.nodes = o₁.nodes.map (Compile.rnNode ρ)) :
+    ∀ (lvl : ObsLevel) (env : Nat → Nat) (n : Nat),
+      trace lvl (Compile.renderOut o₁) env n = trace lvl (Compile.renderOut o₂) env n := by
+  obtain ⟨ρ, hρ, e⟩ := h
+  intro lvl env n
+  have e2 : o₂ = { nodes := o₁.nodes.map (Compile.rnNode ρ) } := by cases o₂; simp only [] at e; rw [e]
+  rw [e2, Compile.renderOut_rn o₁.nodes, Flow.trace_rename hρ]
+
+/-- **A sheet that continues from the inserted block behaves like the sheet with the twin block**,
+when the twin block is tight. -/
+theorem insert_twin_continues_traces_partial (noArgs testTypes : List Str) (pre post body : List Compile.Event)
+    (r : Compile.Row) (hc : InsertContinues noArgs testTypes pre r body post) {o₁ o₂ : Compile.Out}
+    (h₁ : Compile.compile noArgs testTypes (pre ++ [.insert r body] ++ post) = .ok o₁)
+    (h₂ : Compile.compile noArgs testTypes (pre ++ insertTwin r body ++ post) = .ok o₂) :
+    ∀ (lvl : ObsLevel) (env : Nat → Nat) (n : Nat),
+      trace lvl (Compile.renderOut o₁) env n = trace lvl (Compile.renderOut o₂) env n :=
+  traces_of_nodes (insert_twin_continues_nodes_partial noArgs testTypes pre post body r hc h₁ h₂)
+
+/-- The same, condition on the EVENTS (again at any block depth): the insert row directly follows a plain action row `q`
+(`send_message`, `save_value`, `add_to_group`, `remove_from_group`, `save_flow_result`; no `_nodeId`)
+and is attached to it — and to nothing else — unconditionally, by a blank `from` or by `q`'s row id.
+Then `q`'s node is a basic node whose only exit the edge into the block connects: the twin is tight. -/
+structure InsertFollows (pre' : List Compile.Event) (q r : Compile.Row) (body post : List Compile.Event) : Prop where
+  parent : Compile.PlainRow q
+  attached : Compile.Follows q r
+  entry : ∃ r₁ rest, body = .row r₁ :: rest ∧ Compile.EntryRow r₁ ∧ Compile.noStartL rest = true ∧
+    Compile.noNamesL rest = true
+  ids : Compile.okIdsL ((pre' ++ [.row q]) ++ [.insert r body] ++ post) = true
+  noLoose : Compile.noLooseL post = true
+  apart : Compile.avoidsOpen (Compile.defsL body) post = true
+
+/-- **…for every sheet of the shape the harness's twin workbooks have** -/
+theorem insert_twin_follows_traces_partial (noArgs testTypes : List Str) (pre' post body : List Compile.Event)
+    (q r : Compile.Row) (hc : InsertFollows pre' q r body post) {o₁ o₂ : Compile.Out}
+    (h₁ : Compile.compile noArgs testTypes ((pre' ++ [.row q]) ++ [.insert r body] ++ post) = .ok o₁)
+    (h₂ : Compile.compile noArgs testTypes ((pre' ++ [.row q]) ++ insertTwin r body ++ post) = .ok o₂) :
+    ∀ (lvl : ObsLevel) (env : Nat → Nat) (n : Nat),
+      trace lvl (Compile.renderOut o₁) env n = trace lvl (Compile.renderOut o₂) env n := by
+  obtain ⟨r₁, rest, rfl, he, hns, hnn⟩ := hc.entry
+  exact traces_of_nodes (Compile.insert_twin_nodes_follows noArgs testTypes pre' post rest q r r₁ hc.parent
+    hc.attached he hns hnn hc.ids hc.noLoose hc.apart h₁ h₂)
+
+/-- the condition on the events implies the condition on the run -/
+theorem insertFollows_tight (noArgs testTypes : List Str) (pre' : List Compile.Event) (q r r₁ : Compile.Row)
+    (hq : Compile.PlainRow q) (hf : Compile.Follows q r) (he : Compile.EntryRow r₁)
+    (hid : Compile.okIdsL (pre' ++ [.row q]) = true) : InsertTight noArgs testTypes (pre' ++ [.row q]) r r₁ :=
+  Compile.tight_of_follows noArgs testTypes pre' q r r₁ hq hf he hid
+
+/-! #### the harness's workbook: one template inserted twice, each insertion followed by a row
+that continues from it; the template ends in a hard exit on one branch -/
+
+def exM1 : Compile.Row := insRow "m1" "send_message" [insEdge "start"] (some "main")
+
+def exTmpl : List Compile.Event :=
+  [ .row (insRow "t1" "send_message" [insEdge "start"] (some "T")),
+    .row (insRow "t2" "send_message" [insEdge "t1"] (some "second")),
+    .row (insRow "t3" "wait_for_response" [insEdge ""]),
+    .row (insRow "t4" "send_message" [insEdge "t3" "yes"] (some "yes")),
+    .row (insRow "" "hard_exit" [insEdge "t4"]) ]
+
+def exB0 : Compile.Row := insRow "b0" "insert_as_block" [insEdge "m1"]
+def exAft0 : Compile.Row := insRow "aft0" "send_message" [insEdge "b0"] (some "after block 0")
+def exB1 : Compile.Row := insRow "b1" "insert_as_block" [insEdge "aft0"]
+def exAft1 : Compile.Row := insRow "aft1" "send_message" [insEdge "b1"] (some "after block 1")
+
+/-- the first insertion: the sheet goes on with a row continuing from it, the second insertion and
+a row continuing from that -/
+theorem exHarness1 : InsertFollows [] exM1 exB0 exTmpl [.row exAft0, .insert exB1 exTmpl, .row exAft1] :=
+  ⟨by decide, ⟨insEdge "m1", by decide, by decide, .inr ⟨by decide, by decide, by decide⟩⟩,
+    ⟨_, _, rfl, by decide, by decide, by decide⟩, by decide, by decide, by decide⟩
+
+/-- the second insertion, the first one already replaced by its twin block -/
+theorem exHarness2 : InsertFollows ([.row exM1] ++ insertTwin exB0 exTmpl) exAft0 exB1 exTmpl [.row exAft1] :=
+  ⟨by decide, ⟨insEdge "aft0", by decide, by decide, .inr ⟨by decide, by decide, by decide⟩⟩,
+    ⟨_, _, rfl, by decide, by decide, by decide⟩, by decide, by decide, by decide⟩
+
+/-- the three sheets: both insert rows / the first one replaced / both replaced -/
+def exSheet0 : List Compile.Event :=
+  ([] ++ [.row exM1]) ++ [.insert exB0 exTmpl] ++ [.row exAft0, .insert exB1 exTmpl, .row exAft1]
+def exSheet1 : List Compile.Event :=
+  ([] ++ [.row exM1]) ++ insertTwin exB0 exTmpl ++ [.row exAft0, .insert exB1 exTmpl, .row exAft1]
+def exSheet1' : List Compile.Event :=
+  (([.row exM1] ++ insertTwin exB0 exTmpl) ++ [.row exAft0]) ++ [.insert exB1 exTmpl] ++ [.row exAft1]
+def exSheet2 : List Compile.Event :=
+  (([.row exM1] ++ insertTwin exB0 exTmpl) ++ [.row exAft0]) ++ insertTwin exB1 exTmpl ++ [.row exAft1]
+
+theorem exSheet1_eq : exSheet1' = exSheet1 := by
+  simp only [exSheet1, exSheet1', List.append_assoc, List.nil_append, List.cons_append]
+
+/-- the exits of the nodes that send "yes" (the template's hard exit): `some true` = all without destination -/
+def yesExitsHard (evs : List Compile.Event) : Option Bool :=
+  match Compile.compile [] insTests evs with
+  | .ok o => some (((Compile.renderOut o).nodes.filter (fun n => n.actions.any (fun a => a.obs == "yes".toList))).all
+      (fun n => n.exits.all (fun e => e.dest.isNone)))
+  | .error _ => none
+
+theorem exStep1 {o₀ o₁ : Compile.Out} (h₀ : Compile.compile [] insTests exSheet0 = .ok o₀)
+    (h₁ : Compile.compile [] insTests exSheet1 = .ok o₁) :
+    ∀ lvl env n, trace lvl (Compile.renderOut o₀) env n = trace lvl (Compile.renderOut o₁) env n :=
+  insert_twin_follows_traces_partial [] insTests [] _ _ exM1 exB0 exHarness1 h₀ h₁
+
+theorem exStep2 {o₁ o₂ : Compile.Out} (h₁ : Compile.compile [] insTests exSheet1' = .ok o₁)
+    (h₂ : Compile.compile [] insTests exSheet2 = .ok o₂) :
+    ∀ lvl env n, trace lvl (Compile.renderOut o₁) env n = trace lvl (Compile.renderOut o₂) env n :=
+  insert_twin_follows_traces_partial [] insTests _ _ _ exAft0 exB1 exHarness2 h₁ h₂
+
+/-- non-vacuity, and the repeated insertion: the workbook with two insertions of one template
+behaves like the workbook with two twin blocks (two applications of the theorem), all three sheets
+compile (11 nodes), and the hard exit of BOTH insertions is still an exit without destination —
+the rows continuing from the blocks did not pick it up (seeded bug C03c) -/
+example : ∃ o₀ o₂, Compile.compile [] insTests exSheet0 = .ok o₀ ∧ Compile.compile [] insTests exSheet2 = .ok o₂ ∧
+    (∀ lvl env n, trace lvl (Compile.renderOut o₀) env n = trace lvl (Compile.renderOut o₂) env n) ∧
+    yesExitsHard exSheet0 = some true := by
+  obtain ⟨o₀, o₁, h₀, h₁⟩ := bothCompile_some (show bothCompile exSheet0 exSheet1 = some 11 by decide +kernel)
+  obtain ⟨o₁', o₂, h₁', h₂⟩ := bothCompile_some (show bothCompile exSheet1' exSheet2 = some 11 by decide +kernel)
+  have e2 : (Except.ok o₁ : Except Compile.Err Compile.Out) = .ok o₁' := by
+    rw [← h₁, ← exSheet1_eq]; exact h₁'
+  have e : o₁' = o₁ := (Except.ok.inj e2).symm
+  subst e
+  refine ⟨o₀, o₂, h₀, h₂, ?_, by decide +kernel⟩
+  intro lvl env n
+  rw [exStep1 h₀ h₁ lvl env n, exStep2 h₁' h₂ lvl env n]
+
+/-! #### inside a block -/
+
+/-- a block entered from the first row; in it a row and the insert row attached to it by a blank `from` -/
+def exInPre : List Compile.Event :=
+  [ .row exM1, .openGroup [insEdge "m1"] false ]
+def exInQ : Compile.Row := insRow "q" "send_message" [insEdge ""] (some "in the outer block")
+def exInIns : Compile.Row := insRow "I" "insert_as_block" [insEdge ""]
+/-- a row continuing from the inserted block inside the outer block, the end of the outer block, a
+row continuing from the outer block -/
+def exInPost : List Compile.Event :=
+  [ .row (insRow "c1" "send_message" [insEdge ""] (some "continues")), .closeGroup "B".toList,
+    .row (insRow "z" "send_message" [insEdge "B"] (some "after the outer block")) ]
+
+theorem exInside : InsertFollows exInPre exInQ exInIns exTmpl exInPost :=
+  ⟨by decide, ⟨insEdge "", by decide, by decide, .inl rfl⟩,
+    ⟨_, _, rfl, by decide, by decide, by decide⟩, by decide, by decide, by decide⟩
+
+/-- non-vacuity at depth 1: both sheets compile (8 nodes) and behave alike -/
+example : ∃ o₁ o₂, Compile.compile [] insTests ((exInPre ++ [.row exInQ]) ++ [.insert exInIns exTmpl] ++ exInPost) = .ok o₁ ∧
+    Compile.compile [] insTests ((exInPre ++ [.row exInQ]) ++ insertTwin exInIns exTmpl ++ exInPost) = .ok o₂ ∧
+    ∀ lvl env n, trace lvl (Compile.renderOut o₁) env n = trace lvl (Compile.renderOut o₂) env n := by
+  obtain ⟨o₁, o₂, h₁, h₂⟩ := bothCompile_some
+    (show bothCompile ((exInPre ++ [.row exInQ]) ++ [.insert exInIns exTmpl] ++ exInPost)
+      ((exInPre ++ [.row exInQ]) ++ insertTwin exInIns exTmpl ++ exInPost) = some 8 by decide +kernel)
+  exact ⟨o₁, o₂, h₁, h₂, insert_twin_follows_traces_partial [] insTests _ _ _ _ _ exInside h₁ h₂⟩
+
+/-! #### the hypotheses are needed -/
+
+/-- **tightness is needed** (F-C03-a): the insert row of `needs_post_avoids_block` is attached to a wait
+on "yes" — `InsertFollows.parent` and `.attached` fail, everything else holds — and the sheet that
+continues from the block behaves differently from the twin -/
+theorem needs_tight :
+    ¬ Compile.PlainRow (insRow "m1" "wait_for_response" [insEdge "start"]) ∧
+    ¬ Compile.Follows (insRow "m1" "wait_for_response" [insEdge "start"]) wIns ∧
+    Compile.noLooseL wPostNamed = true ∧ Compile.avoidsOpen (Compile.defsL wBody) wPostNamed = true ∧
+    Compile.avoidsOpen (Compile.defsL wBody) wPostBlank = true ∧
+    (∃ o₁ o₂, Compile.compile [] insTests (wPre ++ [.insert wIns wBody] ++ wPostNamed) = .ok o₁ ∧
+      Compile.compile [] insTests (wPre ++ insertTwin wIns wBody ++ wPostNamed) = .ok o₂ ∧
+      trace ⟨true, true⟩ (Compile.renderOut o₁) (fun _ => 1) 3 ≠ trace ⟨true, true⟩ (Compile.renderOut o₂) (fun _ => 1) 3) := by
+  refine ⟨by decide, ?_, by decide, by decide, by decide, sameTrace_false (by decide +kernel)⟩
+  rintro ⟨e, he, hc, _⟩
+  have : Compile.dropTrivial wIns.edges = [insEdge "m1" "yes"] := by decide
+  rw [this] at he
+  injection he with he _
+  subst he
+  revert hc; decide
+
+/-- a `loose_exit` row after the block, attached to the row leading into it -/
+def lPost : List Compile.Event :=
+  [ .row (insRow "" "loose_exit" [insEdge "m1"]), .row (insRow "p1" "send_message" [insEdge "I"] (some "after")) ]
+
+/-- **no `loose_exit` row after the block**: it can disconnect the exit that led into the block; the
+row continuing from the block then picks that exit up in the twin only (F-C03-a again) -/
+theorem needs_no_loose_exit_after :
+    Compile.PlainRow (insRow "m1" "send_message" [insEdge "start"] (some "hello")) ∧
+    Compile.noLooseL lPost = false ∧ Compile.avoidsOpen (Compile.defsL (sBody.take 1)) lPost = true ∧
+    ∃ o₁ o₂, Compile.compile [] insTests (sPre ++ [.insert sIns (sBody.take 1)] ++ lPost) = .ok o₁ ∧
+      Compile.compile [] insTests (sPre ++ insertTwin sIns (sBody.take 1) ++ lPost) = .ok o₂ ∧
+      trace ⟨true, true⟩ (Compile.renderOut o₁) (fun _ => 0) 4 ≠ trace ⟨true, true⟩ (Compile.renderOut o₂) (fun _ => 0) 4 :=
+  ⟨by decide, by decide, by decide, sameTrace_false (by decide +kernel)⟩
+
 /-! ### what remains -/
 
-/-- (F-C03-a) once the template's first row is read in the twin, no row leading into the block has
-an unconnected exit left — so an edge that leaves the block later cannot pick one up -/
-def NoParentLeak (noArgs testTypes : List Str) (pre : List Compile.Event) (r : Compile.Row)
-    (body : List Compile.Event) : Prop :=
-  ∀ s₀ s, (Compile.steps pre).run (Compile.initSt noArgs testTypes) = .ok ((), s₀) →
-    (Compile.steps ([.openGroup r.edges false] ++ (insertRetarget body).take 1)).run s₀ = .ok ((), s) →
-    ∀ e ∈ Compile.dropTrivial r.edges, ∀ g s', (Compile.groupOfEdge e).run s₀ = .ok (some g, s') →
-      ∀ b s'', (Compile.hasLoose (2 * s.groups.size + 8) g).run s = .ok (b, s'') → b = false
+/-- The clause on the model at the strength aimed at: as the theorems above, with `_nodeId`s / node
+names allowed in the template, and the not-continuing alternative (`InsertCovered`) at any block
+depth too.
 
-/-- The clause on the model at the strength aimed at (the statement the model-level fuzzing
-supports: about 10,000 random sheets, no counterexample): for ALL sheets — the insert row at any
-block depth — and all templates that start with a `start` row creating a node and have no other
-`start` row: if both sheets compile, they behave alike, provided the rest of the sheet names no
-row id of the template and EITHER does not continue from the block (`apart`, proved) OR no row
-leading into the block has an unconnected exit (`NoParentLeak`; without it F-C03-a shows,
-`needs_post_avoids_block`).
-
-Proved of it: `insert_twin_traces_partial` — the first alternative, for insert rows outside
-blocks and templates without `_nodeId`s / node names.  Not proved:
-* the sheet continuing from the block (blank `from` / naming the block / `go_to` the block) under
-  `NoParentLeak` — the case the harness's twin workbooks exercise on the real compiler;
-* insert rows inside blocks or loops; `_nodeId`s / node names in the template;
+Proved of it: the alternative "the sheet does not continue from the block" for insert rows outside
+blocks (`insert_twin_traces_partial`); the alternative "the sheet may continue from the block, the
+twin block is tight" at ANY block depth, on the run (`InsertTight`,
+`insert_twin_continues_traces_partial`) and on the events (`InsertFollows`,
+`insert_twin_follows_traces_partial`); templates without `_nodeId`s.  Not proved:
+* `_nodeId`s / node names in the template;
+* the not-continuing alternative for insert rows inside blocks or loops when the twin block is not
+  tight (F-C03-a-prone sheets that stay away from the block and from the blocks around it);
 * a template starting with a block, a `no_op`, a nested insert row or several `start` rows (the
   twin of the clause is wrong for several `start` rows: `needs_single_start`);
+* tightness on the events beyond "directly follows a plain action row" (e.g. a router all of whose
+  exits are connected before the insert row — covered by `InsertTight` on the run only);
+* the harness's twin renames the template's row ids apart, the twin here keeps them and asks the
+  rest of the sheet not to use them (`apart`): that renaming unused row ids does not change the
+  compiled flow is not proved;
 * "one sheet compiles ⇒ the other compiles": false as it stands (a template row naming a row of
-  the sheet is an error for the insert row only; in the `NoParentLeak` case "Block has no loose
-  exit to connect to" can be raised by one side only), so not part of the statement. -/
+  the sheet is an error for the insert row only; "Block has no loose exit to connect to" can be
+  raised by one side only), so not part of the statement. -/
 def insert_twin_full : Prop :=
   ∀ (noArgs testTypes : List Str) (pre post body : List Compile.Event) (r : Compile.Row),
-    (∃ r₁ rest, body = .row r₁ :: rest ∧ Compile.EntryRow r₁ ∧ Compile.noStartL rest = true) →
+    (∃ r₁ rest, body = .row r₁ :: rest ∧ Compile.EntryRow r₁ ∧ Compile.noStartL rest = true ∧
+      (Compile.avoids (Compile.hidden r body) true 0 post = true ∨
+        (Compile.avoidsOpen (Compile.defsL body) post = true ∧ Compile.noLooseL post = true ∧
+          InsertTight noArgs testTypes pre r r₁))) →
     Compile.okIdsL (pre ++ [.insert r body] ++ post) = true →
-    (Compile.avoids (Compile.hidden r body) true 0 post = true ∨
-      (Compile.avoids (Compile.defsL body) false 0 post = true ∧ NoParentLeak noArgs testTypes pre r body)) →
     ∀ o₁ o₂, Compile.compile noArgs testTypes (pre ++ [.insert r body] ++ post) = .ok o₁ →
       Compile.compile noArgs testTypes (pre ++ insertTwin r body ++ post) = .ok o₂ →
       ∀ lvl env n, trace lvl (Compile.renderOut o₁) env n = trace lvl (Compile.renderOut o₂) env n
